@@ -302,13 +302,123 @@ fn one_case(_ctx: &Ctx, case: u64, r: &mut Rng, rep: &mut Report, max_packs: usi
     }
 }
 
+/// a real repository with live, marked and (sometimes) lost packs, opened through all four public constructors of the
+/// indexed states; every answer is compared with the raw index files
+fn real_repo_case(_ctx: &Ctx, case: u64, r: &mut Rng, rep: &mut Report) {
+    use crate::cmds::{Cmd, Limit, PruneSpec};
+    let mut h = match crate::props::c02::setup(r) {
+        Ok(h) => h,
+        Err(e) => {
+            rep.inconclusive(format!("setup: {e}"));
+            return;
+        }
+    };
+    for _ in 0..r.range(2, 3) {
+        for _ in 0..r.range(1, 3) {
+            let k = r.pick(&crate::model::ALL_EDITS).clone();
+            let _ = crate::model::apply_edit(r, &mut h.model, &k, &h.tp);
+        }
+        if h.backup(true).is_err() {
+            return;
+        }
+    }
+    // forget the oldest and mark (not remove) what it alone used
+    let _ = Cmd::Forget { positions: vec![0] }.run(&h.env);
+    let mut spec = PruneSpec::default_safe();
+    spec.max_unused = Limit::Pct(0);
+    spec.repack_all = r.chance(1, 3);
+    let _ = Cmd::Prune { spec }.run(&h.env);
+    let rk = h.rk();
+    // sometimes a pack file is lost as well: the checked constructors then must not offer its blobs
+    let lost: Option<Id> = if r.chance(1, 3) {
+        let st = h.uni.state(0);
+        crate::rawrepo::index_view(&rk, &st).ok().and_then(|v| v.packs.keys().next().copied()).inspect(|id| {
+            let mut g = h.uni.lock();
+            let _ = g.stores[0].del(FileType::Pack, id);
+        })
+    } else {
+        None
+    };
+    let st = h.uni.state(0);
+    let Ok(view) = crate::rawrepo::index_view(&rk, &st) else { return };
+    rep.evaluations += 1;
+    let mut probes: BTreeSet<(String, Id)> = view.blobs.keys().cloned().collect();
+    for p in view.marked.values() {
+        for b in &p.blobs {
+            let _ = probes.insert((b.tpe.clone(), b.id));
+        }
+    }
+    rep.count("real_repo_marked_packs", view.marked.len() as u64);
+    let detail = json!({"config": h.cfg.desc, "packs": view.packs.len(), "marked": view.marked.len(), "lost_pack": lost.map(|i| i.to_hex().to_string())});
+    type Lookup = Box<dyn Fn(&str, &Id) -> Option<Loc>>;
+    let ctors: Vec<(&str, bool, Result<Lookup, String>)> = vec![
+        ("to_indexed", false, h.env.open().and_then(|r| r.to_indexed().map_err(|e| repo::errstr(&e))).map(|repo| {
+            Box::new(move |t: &str, id: &Id| {
+                let e = if t == "tree" { repo.get_index_entry(&TreeId::from(BlobId::from(*id))) } else { repo.get_index_entry(&DataId::from(BlobId::from(*id))) };
+                e.ok().map(|e| (*e.pack, e.location.offset, e.location.length, e.location.uncompressed_length.map(std::num::NonZeroU32::get)))
+            }) as Lookup
+        })),
+        ("to_indexed_checked", true, h.env.open().and_then(|r| r.to_indexed_checked().map_err(|e| repo::errstr(&e))).map(|repo| {
+            Box::new(move |t: &str, id: &Id| {
+                let e = if t == "tree" { repo.get_index_entry(&TreeId::from(BlobId::from(*id))) } else { repo.get_index_entry(&DataId::from(BlobId::from(*id))) };
+                e.ok().map(|e| (*e.pack, e.location.offset, e.location.length, e.location.uncompressed_length.map(std::num::NonZeroU32::get)))
+            }) as Lookup
+        })),
+    ];
+    for (name, checked, c) in ctors {
+        let look = match c {
+            Ok(l) => l,
+            Err(e) => {
+                rep.violation(case, format!("real/{name}:failed"), e, detail.clone());
+                continue;
+            }
+        };
+        for (t, id) in &probes {
+            rep.count("real_repo_lookups", 1);
+            // listings in unmarked packs; the checked constructors additionally drop packs that are not in storage
+            let expect: Vec<Loc> = view.blobs.get(&(t.clone(), *id)).map(|l| l.iter().filter(|x| !checked || Some(x.0) != lost).cloned().collect()).unwrap_or_default();
+            match (look(t, id), expect.is_empty()) {
+                (Some(loc), false) => {
+                    if !expect.contains(&loc) {
+                        rep.violation(case, format!("real/{name}:wrong-location"), format!("{t} {id}: {loc:?} is not one of the listings in live packs"), detail.clone());
+                        break;
+                    }
+                }
+                (Some(loc), true) => {
+                    rep.violation(case, format!("real/{name}:phantom"), format!("{t} {id} is listed only in packs marked for deletion (or lost), but the index answers {loc:?}"), detail.clone());
+                    break;
+                }
+                (None, false) => {
+                    rep.violation(case, format!("real/{name}:missing"), format!("{t} {id} is listed in a live pack but the index does not find it"), detail.clone());
+                    break;
+                }
+                (None, true) => {}
+            }
+        }
+        rep.class(format!("real/{name}/{}{}", if view.marked.is_empty() { "nomarked" } else { "marked" }, if lost.is_some() { "+lost" } else { "" }));
+    }
+    // the ids-only constructors: presence of data blobs / full entries for trees through a backup that must not
+    // deduplicate against marked packs is covered by C02/C10; here: both build without error
+    for (name, res) in [("to_indexed_ids", h.env.open().and_then(|r| r.to_indexed_ids().map(|_| ()).map_err(|e| repo::errstr(&e)))), ("to_indexed_ids_checked", h.env.open().and_then(|r| r.to_indexed_ids_checked().map(|_| ()).map_err(|e| repo::errstr(&e))))] {
+        if let Err(e) = res {
+            rep.violation(case, format!("real/{name}:failed"), e, detail.clone());
+        }
+    }
+}
+
 pub fn run(ctx: &Ctx) -> (Report, Meta) {
     let n = ctx.tier.pick(10_000, 1_500_000);
     let max_packs = ctx.tier.pick(25, 120);
-    let rep = run_cases(ctx, n, &|c, i, r, rep| one_case(c, i, r, rep, max_packs));
+    let mut rep = run_cases(ctx, n, &|c, i, r, rep| one_case(c, i, r, rep, max_packs));
+    {
+        let mut c2 = ctx.clone();
+        c2.case_base = 10_000_000;
+        c2.seed ^= 0x17;
+        rep.merge(run_cases(&c2, ctx.tier.pick(24, 600), &|c, i, r, rep| real_repo_case(c, i + 10_000_000, r, rep)));
+    }
     let meta = Meta {
         level: "exploration",
-        rule: "case = 1-4 generated index files (0..max packs each, 0-40 blobs per pack, duplicate blobs across packs, same id under both types, empty packs, marked packs, ids sharing long prefixes, explicit sizes) loaded into the real index in the three modes (hook H3) and, for every 4th case, planted as encrypted files in a store and queried through Repository::get_index_entry; oracle: multimap model over unmarked packs for has/get_id/total_size/pack iteration, probed with all present ids, one-bit neighbours and random ids. non-trivial = >= 2 packs and >= 2 distinct blobs; distinct = (files, pack count class, duplicates, both-types, marked)".to_string(),
+        rule: "case = 1-4 generated index files (0..max packs each, 0-40 blobs per pack, duplicate blobs across packs, same id under both types, empty packs, marked packs, ids sharing long prefixes, explicit sizes) loaded into the real index in the three modes (hook H3) and, for every 4th case, planted as encrypted files in a store and queried through Repository::get_index_entry; oracle: multimap model over unmarked packs for has/get_id/total_size/pack iteration, probed with all present ids, one-bit neighbours and random ids. Plus real repositories (backups, forget, marking prune, sometimes a lost pack) opened through to_indexed / to_indexed_checked (and the ids-only constructors built): every blob listed in a live or marked pack is looked up and compared with the raw index files (marked => not found; checked constructors: lost pack => not found). non-trivial = >= 2 packs and >= 2 distinct blobs; distinct = (files, pack count class, duplicates, both-types, marked)".to_string(),
         exhaustive: false,
         assumptions: vec![
             "packs are homogeneous (all blobs of one type), as the library writes them; legacy mixed packs are not generated".to_string(),
